@@ -87,6 +87,14 @@ type Ctx struct {
 //go:norace
 func NewCtx(k *kernel.K, timeout time.Duration, name string) *Ctx {
 	c := &Ctx{k: k, done: make(chan struct{}), Name: name}
+	if timeout < 0 {
+		// a context that is already spent when it is handed over
+		c.dl = time.Now()
+		c.err = context.DeadlineExceeded
+		close(c.done)
+		k.Bump("fault.ctx_spent_on_entry")
+		return c
+	}
 	if timeout > 0 {
 		c.dl = time.Now().Add(timeout)
 		k.Lock()
